@@ -6,6 +6,8 @@ pub mod genome;
 pub mod instruction;
 pub mod list_into;
 pub mod push_vm;
+#[cfg(unhindered_ec_unhindered_ec_verif)]
+pub mod verif_states;
 
 #[cfg(feature = "macros")]
 pub use push_macros::*;
